@@ -1,7 +1,7 @@
 (* QueryAddr.v — what a filter over a query in disjunctive form selects, from the path text: the members for which some
    conjunction has all its basic queries true — an existence test is true when its steps reach something, its negation when
    they reach nothing, a comparison when the number reached stands in the relation (!= : when not ==). *)
-From JP Require Import Peg Grammar Slice Text Tree Actions Json Eval WF Spec SortFacts EvalInv1 EvalInv4 EvalTop EndToEnd Codec KeyDefs KeyParse IdxParse SliceParse UnionParse WildParse RecParse ChainParse SpacePath FunParse AggParse FiltParse CmpParse NegFilt LitParse QueryParse ChainAddr FunAddr AggAddr FiltAddr CmpAddr SpecRootFree.
+From JP Require Import Peg Grammar Slice Text Tree Actions Json Eval WF Spec SortFacts EvalInv1 EvalInv4 EvalTop EndToEnd Codec KeyDefs KeyParse IdxParse SliceParse UnionParse WildParse RecParse ChainParse SpacePath FunParse AggParse FiltParse CmpParse NegFilt LitParse RootOp QueryParse ChainAddr FunAddr AggAddr FiltAddr CmpAddr SpecRootFree.
 From Coq Require Import Lia.
 Open Scope list_scope.
 
@@ -23,6 +23,10 @@ Definition lit_test (v : value) (e : entry) : bool :=
   | _, _ => false
   end.
 
+(* what a `$` operand offers: nothing, the single value its steps reach from the document, or `true` when they reach several *)
+Definition root_entry (j : list rstep) (root : value) : entry :=
+  match nav_all j ([], root) with [] => None | [lv] => Some (snd lv) | _ => Some (VBool true) end.
+
 Section QueryAddr.
   Variable cfg : config.
   Variable parse_float : string -> option num.
@@ -34,17 +38,129 @@ Section QueryAddr.
   Notation sp := (sp ffun afun regex_match).
   Notation holds := (holds ffun afun regex_match).
 
-  Definition bq_test (b : bq) (v : value) : bool :=
+  Definition bq_test (root : value) (b : bq) (v : value) : bool :=
     match b with
     | BE i => reaches i v
     | BN i => negb (reaches i v)
     | BC i o lit => ctest i o (qnum parse_float lit) v
     | BL i ne l => if ne then negb (lit_test (litv_value l) (reach1 i v)) else lit_test (litv_value l) (reach1 i v)
+    | BRE j => reaches j root
+    | BRN j => negb (reaches j root)
+    | BCR i o j => match num_of_entry (root_entry j root) with
+                   | Some f => entry_test o f (reach1 i v)
+                   | None => false
+                   end
     end.
-  Definition dnf_test (d : list (list bq)) (v : value) : bool := existsb (fun c => forallb (fun b => bq_test b v) c) d.
+  Definition dnf_test (root : value) (d : list (list bq)) (v : value) : bool := existsb (fun c => forallb (fun b => bq_test root b v) c) d.
 
-  Lemma bq_ok_steps b : bq_ok b = true -> forallb rstep_ok (match b with BE i | BN i | BC i _ _ | BL i _ _ => i end) = true.
-  Proof. destruct b as [i|i|i o lit|i ne l]; cbn [bq_ok]; intros H; try exact H; apply andb_true_iff in H; destruct H as [H _]; apply andb_true_iff in H; exact (proj1 H). Qed.
+  Lemma bq_ok_steps b : bq_ok b = true -> forallb rstep_ok (match b with BE i | BN i | BC i _ _ | BL i _ _ | BRE i | BRN i | BCR i _ _ => i end) = true.
+  Proof.
+    destruct b as [i|i|i o lit|i ne l|j|j|i o j]; cbn [bq_ok]; intros H; try exact H.
+    - apply andb_true_iff in H; destruct H as [H _]; apply andb_true_iff in H; exact (proj1 H).
+    - apply andb_true_iff in H; destruct H as [H _]; apply andb_true_iff in H; exact (proj1 H).
+    - apply andb_true_iff in H; destruct H as [H _]. apply andb_true_iff in H; destruct H as [H _]. apply andb_true_iff in H; exact (proj1 H).
+  Qed.
+
+  (* ---------- the `$` operand ---------- *)
+  Notation accf := (fun b : basic => accessor b = false).
+  Lemma root_operand_tree_acc x r : exists b1 b2 nx,
+    clear_acc (delete_root (root_inner cfg (x :: r))) = seg x b1 b2 nx /\ shaped (kinds_of r) nx /\ accessor b2 = false /\ allb accf nx.
+  Proof.
+    unfold root_inner. pose proof (pres_plain cfg (x :: r)) as Hp.
+    assert (Hk : map fst (cl (pres cfg (x :: r))) = kinds_of (x :: r)) by apply kinds_cl.
+    destruct (pres cfg (x :: r)) as [|y l] eqn:Ep.
+    { exfalso. unfold pres in Ep. cbn [flat_map] in Ep. destruct x as [s|s]; discriminate Ep. }
+    inversion Hp as [|? ? Hy Hl]; subst.
+    assert (Ev : exists by0, clear_acc (delete_root (update_vg (Node KRoot (root_basic cfg) (link (y :: l))))) = Node (fst y) by0 (link (cl l)) /\
+                 accessor by0 = false).
+    { unfold update_vg. cbn [chain_vg]. destruct (vgroup (root_basic cfg) || _).
+      - cbn [set_node_vg link delete_root vgroup set_vgroup]. eexists. rewrite (clear_link (fst y) _ l (proj1 Hy) Hl). split; reflexivity.
+      - cbn [link delete_root root_basic mk_basic vgroup]. eexists. rewrite (clear_link (fst y) _ l (proj1 Hy) Hl). split; reflexivity. }
+    destruct Ev as (by0 & Ev & Hacc). rewrite Ev.
+    assert (Hsh : shaped (kinds_of (x :: r)) (OSome (Node (fst y) by0 (link (cl l))))).
+    { rewrite <- Hk. cbn [cl map fst shaped]. split; [reflexivity|]. apply (shaped_link (cl l)). }
+    assert (Hall : allb accf (OSome (Node (fst y) by0 (link (cl l))))).
+    { cbn [allb]. split; [exact Hacc|]. apply allb_link. unfold cl. apply Forall_forall. intros kb Hin. apply in_map_iff in Hin. destruct Hin as [kb0 [E _]]. subst kb. reflexivity. }
+    unfold kinds_of in Hsh. cbn [flat_map] in Hsh. destruct (shaped_seg x _ _ Hsh) as (b1 & b2 & nx & E & Hn). inversion E as [E'].
+    rewrite E' in Hall. destruct (allb_seg accf x b1 b2 nx Hall) as [Hb2 Hnx].
+    exists b1, b2, nx. repeat split; assumption.
+  Qed.
+
+  Lemma operand_root j root vals : forallb rstep_ok j = true -> small root ->
+    Spec.operand ffun afun regex_match (root_pq cfg j) root vals = [root_entry j root].
+  Proof.
+    intros Hs Hsm. unfold root_pq.
+    change (Spec.operand ffun afun regex_match (PqRoot ?n) root vals) with
+      (match sp n root (Some [], root) with [] => [None] | [x] => [Some (res_value (Spec.wrap x))] | _ => [Some (VBool true)] end).
+    destruct j as [|x r].
+    - unfold root_inner, update_vg. cbn. reflexivity.
+    - destruct (root_operand_tree_acc x r) as (b1 & b2 & nx & E & Hn & Hb2 & Hnx). rewrite E.
+      destruct (sp_shaped_P ffun afun regex_match accf r x b1 b2 nx Hn Hs Hb2 Hnx) as (B & HB & Hsp).
+      pose proof (Hsp root [] root Hsm) as Hq.
+      match goal with |- context [Spec.sp ffun afun regex_match ?n root ?c] =>
+        replace (Spec.sp ffun afun regex_match n root c) with (map (fun lv : list pstep * value => (B, true, (Some (fst lv), snd lv))) (nav_all (x :: r) ([], root))) by (symmetry; exact Hq) end.
+      unfold root_entry.
+      destruct (nav_all (x :: r) ([], root)) as [|a [|a' l]]; cbn [map]; try reflexivity.
+      cbn [Spec.wrap]. rewrite HB. reflexivity.
+  Qed.
+
+  Lemma reaches_root_entry j root : negb (isE (root_entry j root)) = reaches j root.
+  Proof. unfold root_entry, reaches. destruct (nav_all j ([], root)) as [|a [|a' l]]; reflexivity. Qed.
+
+  Lemma holds_root_exists j root vals : forallb rstep_ok j = true -> small root ->
+    holds (QParam (root_pq cfg j)) root vals = map (fun _ => reaches j root) vals.
+  Proof.
+    intros Hs Hsm.
+    change (holds (QParam ?p) root vals) with
+      (let es := Spec.operand ffun afun regex_match p root vals in
+       if Nat.eqb (List.length es) (List.length vals) then map (fun x => negb (isE x)) es
+       else repeat (negb (isE (hd None es))) (List.length vals)).
+    cbv zeta. rewrite (operand_root j root vals Hs Hsm). cbn [List.length hd map]. rewrite reaches_root_entry.
+    destruct vals as [|v [|v' vals]]; [reflexivity|reflexivity|].
+    change (Nat.eqb 1 (List.length (v :: v' :: vals))) with false. cbv iota.
+    generalize (v :: v' :: vals). intros l. induction l as [|z l IH]; [reflexivity|]. cbn [List.length repeat map]. rewrite IH. reflexivity.
+  Qed.
+
+  (* a comparison against what a `$` path offers: the number it reaches, when it reaches exactly one value and that is a number *)
+  Lemma cmp_holds_numeric_r c e es : numc c ->
+    Spec.cmp_holds regex_match c (List.length es) (if existsb (fun x => negb (isE x)) es then es else [None]) e =
+    match num_of_entry e with Some f => map (base_test c f) es | None => repeat false (List.length es) end.
+  Proof.
+    intros Hc. destruct (num_of_entry e) as [f|] eqn:En.
+    - rewrite <- (cmp_holds_numeric regex_match c f es Hc). unfold Spec.cmp_holds. cbv zeta.
+      assert (Ev : validate_to c e = validate_to c (Some (VNum f)) /\ is_valid c e = is_valid c (Some (VNum f))).
+      { unfold validate_to, is_valid. destruct e as [v|]; [|discriminate En]. destruct v; try discriminate En; cbn [num_of_entry] in En; inversion En; subst;
+          destruct Hc as [E|[E|[E|[E|E]]]]; subst c; split; reflexivity. }
+      destruct Ev as [Ev1 Ev2]. rewrite Ev1, Ev2. reflexivity.
+    - unfold Spec.cmp_holds. cbv zeta.
+      assert (Ev : is_valid c e = false).
+      { rewrite (valid_numeric c e Hc), En. reflexivity. }
+      rewrite Ev, andb_false_r.
+      assert (Hnot : match c with CDeepEq => False | _ => True end) by (destruct Hc as [E|[E|[E|[E|E]]]]; subst c; exact I).
+      destruct (Bool.eqb _ false); destruct c; try contradiction; reflexivity.
+  Qed.
+
+  Lemma holds_root_cmp i o j root vals : forallb rstep_ok i = true -> forallb rstep_ok j = true ->
+    match o with OLt | OLe | OGt | OGe => true | _ => false end = true -> small root -> Forall small vals ->
+    holds (QCmp (cmp_left cfg i) (CP (root_pq cfg j) true) (match o with OLt => CLt | OLe => CLe | OGt => CGt | _ => CGe end)) root vals =
+    map (fun v => match num_of_entry (root_entry j root) with Some f => entry_test o f (reach1 i v) | None => false end) vals.
+  Proof.
+    intros Hi Hj Ho Hsm Hv. set (c := match o with OLt => CLt | OLe => CLe | OGt => CGt | _ => CGe end).
+    assert (Hc : numc c) by (unfold c, numc; destruct o; try discriminate Ho; auto).
+    unfold cmp_left, filter_pq.
+    change (holds (QCmp (CP (PqCur ?n) false) (CP ?rp true) c) root vals) with
+      (Spec.cmp_holds regex_match c (List.length vals)
+         (let es0 := map (fun v => match sp n root (None, v) with x :: _ => Some (res_value (Spec.wrap x)) | [] => None end) vals in
+          if existsb (fun x => negb (isE x)) es0 then es0 else [None]) (hd None (Spec.operand ffun afun regex_match rp root vals))).
+    cbv zeta. rewrite (operand_root j root vals Hj Hsm). cbn [hd].
+    assert (E0 : map (fun v => match sp (clear_acc (delete_root (inner_root cfg i))) root (None, v) with x :: _ => Some (res_value (Spec.wrap x)) | [] => None end) vals
+                 = map (reach1 i) vals).
+    { apply map_ext_in. intros v Hin. rewrite Forall_forall in Hv. apply (operand_entry cfg ffun afun regex_match i root v Hi (Hv v Hin)). }
+    rewrite E0. rewrite <- (map_length (reach1 i) vals). rewrite (cmp_holds_numeric_r c _ _ Hc).
+    destruct (num_of_entry (root_entry j root)) as [f|].
+    - rewrite map_map. apply map_ext. intros v. unfold base_test, entry_test, c. destruct (num_of_entry (reach1 i v)); destruct o; try discriminate Ho; reflexivity.
+    - rewrite map_length. clear. induction vals as [|z l IH]; [reflexivity|]. cbn [List.length repeat map]. rewrite IH. reflexivity.
+  Qed.
 
   (* == against a string, boolean or null literal: validate-then-compare over all members is a map of lit_test *)
   Lemma keeps_direct l e : cmp_keeps regex_match (CDirectEq (litv_vd l)) (validate_to (CDirectEq (litv_vd l)) (Some (litv_value l))) (validate_to (CDirectEq (litv_vd l)) e)
@@ -97,10 +213,10 @@ Section QueryAddr.
     rewrite E0. rewrite <- (map_length (reach1 i) vals). rewrite (cmp_holds_direct l), map_map. reflexivity.
   Qed.
 
-  Lemma holds_bq b root vals : bq_ok b = true -> Forall small vals ->
-    holds (bq_query cfg parse_float b) root vals = map (bq_test b) vals.
+  Lemma holds_bq b root vals : bq_ok b = true -> small root -> Forall small vals ->
+    holds (bq_query cfg parse_float b) root vals = map (bq_test root b) vals.
   Proof.
-    intros Hb Hv. pose proof (bq_ok_steps b Hb) as Hs. destruct b as [i|i|i o lit|i ne l]; cbn [bq_query bq_test].
+    intros Hb Hr Hv. pose proof (bq_ok_steps b Hb) as Hs. destruct b as [i|i|i o lit|i ne l|j|j|i o j]; cbn [bq_query bq_test].
     - apply (holds_exists cfg ffun afun regex_match i root vals Hs Hv).
     - change (holds (QNot ?q) root vals) with (map negb (holds q root vals)).
       rewrite (holds_exists cfg ffun afun regex_match i root vals Hs Hv), map_map. reflexivity.
@@ -108,50 +224,55 @@ Section QueryAddr.
     - destruct ne.
       + change (holds (QNot ?q) root vals) with (map negb (holds q root vals)). rewrite (holds_lit_cmp i l root vals Hs Hv), map_map. reflexivity.
       + apply (holds_lit_cmp i l root vals Hs Hv).
+    - apply (holds_root_exists j root vals Hs Hr).
+    - change (holds (QNot ?q) root vals) with (map negb (holds q root vals)). rewrite (holds_root_exists j root vals Hs Hr), map_map. reflexivity.
+    - cbn [bq_ok] in Hb. apply andb_true_iff in Hb. destruct Hb as [Hb Ho]. apply andb_true_iff in Hb. destruct Hb as [_ Hj].
+      apply andb_true_iff in Hj. destruct Hj as [Hj _].
+      apply (holds_root_cmp i o j root vals Hs Hj Ho Hr Hv).
   Qed.
 
-  Lemma holds_and_fold bs : forall q0 h0 root vals, forallb bq_ok bs = true -> Forall small vals ->
+  Lemma holds_and_fold bs : forall q0 h0 root vals, forallb bq_ok bs = true -> small root -> Forall small vals ->
     holds q0 root vals = map h0 vals ->
     holds (fold_left (fun q x => QAnd q (bq_query cfg parse_float x)) bs q0) root vals =
-    map (fun v => fold_left (fun a x => a && bq_test x v) bs (h0 v)) vals.
+    map (fun v => fold_left (fun a x => a && bq_test root x v) bs (h0 v)) vals.
   Proof.
-    induction bs as [|x r IH]; intros q0 h0 root vals Hs Hv H0; [exact H0|].
+    induction bs as [|x r IH]; intros q0 h0 root vals Hs Hr Hv H0; [exact H0|].
     cbn [forallb] in Hs. apply andb_true_iff in Hs. destruct Hs as [H1 H2]. cbn [fold_left].
-    apply (IH (QAnd q0 (bq_query cfg parse_float x)) (fun v => h0 v && bq_test x v) root vals H2 Hv).
+    apply (IH (QAnd q0 (bq_query cfg parse_float x)) (fun v => h0 v && bq_test root x v) root vals H2 Hr Hv).
     change (holds (QAnd ?a ?b) root vals) with (andb_lists (holds a root vals) (holds b root vals)).
-    rewrite H0, (holds_bq x root vals H1 Hv). apply andb_lists_map.
+    rewrite H0, (holds_bq x root vals H1 Hr Hv). apply andb_lists_map.
   Qed.
-  Lemma holds_conj c root vals : conj_ok c = true -> Forall small vals ->
-    holds (conj_query cfg parse_float c) root vals = map (fun v => forallb (fun b => bq_test b v) c) vals.
+  Lemma holds_conj c root vals : conj_ok c = true -> small root -> Forall small vals ->
+    holds (conj_query cfg parse_float c) root vals = map (fun v => forallb (fun b => bq_test root b v) c) vals.
   Proof.
-    intros Hc Hv. destruct c as [|b bs]; [discriminate Hc|]. cbn [conj_ok forallb] in Hc. apply andb_true_iff in Hc. destruct Hc as [H1 H2].
-    cbn [conj_query]. rewrite (holds_and_fold bs _ (bq_test b) root vals H2 Hv (holds_bq b root vals H1 Hv)).
+    intros Hc Hr Hv. destruct c as [|b bs]; [discriminate Hc|]. cbn [conj_ok forallb] in Hc. apply andb_true_iff in Hc. destruct Hc as [H1 H2].
+    cbn [conj_query]. rewrite (holds_and_fold bs _ (bq_test root b) root vals H2 Hr Hv (holds_bq b root vals H1 Hr Hv)).
     apply map_ext. intros v. rewrite fold_and. reflexivity.
   Qed.
-  Lemma holds_or_fold cs : forall q0 h0 root vals, forallb conj_ok cs = true -> Forall small vals ->
+  Lemma holds_or_fold cs : forall q0 h0 root vals, forallb conj_ok cs = true -> small root -> Forall small vals ->
     holds q0 root vals = map h0 vals ->
     holds (fold_left (fun q x => QOr q (conj_query cfg parse_float x)) cs q0) root vals =
-    map (fun v => fold_left (fun a x => a || forallb (fun b => bq_test b v) x) cs (h0 v)) vals.
+    map (fun v => fold_left (fun a x => a || forallb (fun b => bq_test root b v) x) cs (h0 v)) vals.
   Proof.
-    induction cs as [|x r IH]; intros q0 h0 root vals Hs Hv H0; [exact H0|].
+    induction cs as [|x r IH]; intros q0 h0 root vals Hs Hr Hv H0; [exact H0|].
     cbn [forallb] in Hs. apply andb_true_iff in Hs. destruct Hs as [H1 H2]. cbn [fold_left].
-    apply (IH (QOr q0 (conj_query cfg parse_float x)) (fun v => h0 v || forallb (fun b => bq_test b v) x) root vals H2 Hv).
+    apply (IH (QOr q0 (conj_query cfg parse_float x)) (fun v => h0 v || forallb (fun b => bq_test root b v) x) root vals H2 Hr Hv).
     change (holds (QOr ?a ?b) root vals) with (orb_lists (holds a root vals) (holds b root vals)).
-    rewrite H0, (holds_conj x root vals H1 Hv). apply orb_lists_map.
+    rewrite H0, (holds_conj x root vals H1 Hr Hv). apply orb_lists_map.
   Qed.
-  Lemma holds_dnf d root vals : dnf_ok d = true -> Forall small vals ->
-    holds (dnf_query cfg parse_float d) root vals = map (dnf_test d) vals.
+  Lemma holds_dnf d root vals : dnf_ok d = true -> small root -> Forall small vals ->
+    holds (dnf_query cfg parse_float d) root vals = map (dnf_test root d) vals.
   Proof.
-    intros Hd Hv. destruct d as [|c cs]; [discriminate Hd|]. cbn [dnf_ok forallb] in Hd. apply andb_true_iff in Hd. destruct Hd as [H1 H2].
-    cbn [dnf_query]. rewrite (holds_or_fold cs _ (fun v => forallb (fun b => bq_test b v) c) root vals H2 Hv (holds_conj c root vals H1 Hv)).
+    intros Hd Hr Hv. destruct d as [|c cs]; [discriminate Hd|]. cbn [dnf_ok forallb] in Hd. apply andb_true_iff in Hd. destruct Hd as [H1 H2].
+    cbn [dnf_query]. rewrite (holds_or_fold cs _ (fun v => forallb (fun b => bq_test root b v) c) root vals H2 Hr Hv (holds_conj c root vals H1 Hr Hv)).
     apply map_ext. intros v. rewrite fold_or. reflexivity.
   Qed.
 
-  Lemma sp_fq d b next root p v : dnf_ok d = true -> small v ->
+  Lemma sp_fq d b next root p v : dnf_ok d = true -> small root -> small v ->
     sp (Node (fq_kind cfg parse_float d) b next) root (Some p, v) =
-    flat_map (ChainAddr.fwd ffun afun regex_match b next root) (navp (dnf_test d) (p, v)).
+    flat_map (ChainAddr.fwd ffun afun regex_match b next root) (navp (dnf_test root d) (p, v)).
   Proof.
-    intros Hd Hsm. unfold fq_kind. apply (sp_kfilter ffun afun regex_match); [|exact Hsm].
+    intros Hd Hr Hsm. unfold fq_kind. apply (sp_kfilter ffun afun regex_match); [|exact Hsm].
     intros vals Hv. apply holds_dnf; assumption.
   Qed.
 End QueryAddr.
